@@ -6,18 +6,25 @@
 // Part 2 (schedules): 2-3 threads with 1-2 operations each on colliding ids run under the gosim scheduler;
 // every interleaving of the logger's lock operations is enumerated and the recorded call/return history
 // must be linearizable with respect to the same model.
+// Further families (families.go; see AUDIT.md): front (the calls made through the HTTP handlers of
+// har_handlers.go), errs (requests and responses whose body fails while it is being logged), ring (logs of up to
+// ten entries in every pending/completed pattern over several export-and-reset rounds), and concurrent
+// scenarios whose exports and resets go through the handlers.
 package main
 
 import (
-	"io"
 	"encoding/json"
+	"errors"
 	"fmt"
+	"io"
 	"net/http"
+	"net/http/httptest"
 	"os"
 	"strings"
 	"time"
 
 	"github.com/google/martian/v3/har"
+	mlog "github.com/google/martian/v3/log"
 	"github.com/google/martian/v3/zzverif/vrt"
 
 	"verif/lib"
@@ -29,6 +36,16 @@ const (
 	opExport
 	opExportReset
 	opReset
+	// the body of the message fails while the logger reads it: the call reports an error and records nothing
+	opReqFail
+	opRespFail
+	// the same calls made the way a client of the proxy makes them: through the handlers of har_handlers.go
+	// (ID holds the spelling "<METHOD> <query>")
+	opExportH
+	opExportResetH
+	opResetH
+	// a call the handlers refuse (ID = "<export|reset> <METHOD> <query> <status>"): not an export, not a reset
+	opRefusedH
 )
 
 type op struct {
@@ -46,8 +63,40 @@ func (o op) String() string {
 		return "Export"
 	case opExportReset:
 		return "ExportAndReset"
+	case opReqFail:
+		return "ReqFail(" + o.ID + ")"
+	case opRespFail:
+		return "RespFail(" + o.ID + ")"
+	case opExportH:
+		return "ExportH(" + o.ID + ")"
+	case opExportResetH:
+		return "ExportAndResetH(" + o.ID + ")"
+	case opResetH:
+		return "ResetH(" + o.ID + ")"
+	case opRefusedH:
+		return "RefusedH(" + o.ID + ")"
 	}
 	return "Reset"
+}
+
+// parseOp is the inverse of String (replays).
+func parseOp(name string) (op, bool) {
+	switch name {
+	case "Export":
+		return op{Kind: opExport}, true
+	case "ExportAndReset":
+		return op{Kind: opExportReset}, true
+	case "Reset":
+		return op{Kind: opReset}, true
+	}
+	i := strings.IndexByte(name, '(')
+	if i < 0 || !strings.HasSuffix(name, ")") {
+		return op{}, false
+	}
+	kinds := map[string]int{"Req": opReq, "Resp": opResp, "ReqFail": opReqFail, "RespFail": opRespFail, "ExportH": opExportH,
+		"ExportAndResetH": opExportResetH, "ResetH": opResetH, "RefusedH": opRefusedH}
+	k, ok := kinds[name[:i]]
+	return op{Kind: k, ID: name[i+1 : len(name)-1]}, ok
 }
 
 func alphabet(ids []string) []op {
@@ -91,9 +140,25 @@ func (m *model) apply(o op, tag int) string {
 			}
 		}
 		return "ok"
-	case opExport:
+	case opReqFail:
+		// the request could not be read, so there is nothing to record (a duplicate id is an error as well)
+		return "err"
+	case opRespFail:
+		for _, e := range m.entries {
+			if e.id == o.ID {
+				return "err"
+			}
+		}
+		// the statement only says that a response for an unknown id is ignored: whether its body is looked at
+		// first is not fixed
+		return "any"
+	case opRefusedH:
+		// refused with its status, and the log is what it was (looked at directly, right after the call)
+		f := strings.Fields(o.ID)
+		return "status:" + f[len(f)-1] + " log:" + render(m.entries)
+	case opExport, opExportH:
 		return render(m.entries)
-	case opExportReset:
+	case opExportReset, opExportResetH:
 		var done, keep []mentry
 		for _, e := range m.entries {
 			if e.respTag != 0 {
@@ -109,6 +174,9 @@ func (m *model) apply(o op, tag int) string {
 		return "ok"
 	}
 }
+
+// match compares an observed result with the model's ("any" = the statement does not fix it).
+func match(want, got string) bool { return want == got || want == "any" }
 
 func render(es []mentry) string {
 	var sb strings.Builder
@@ -130,6 +198,45 @@ func mkReq(tag int) *http.Request {
 	return req
 }
 
+// reqBody is the body of the request recorded with the given tag in the families that upload one.
+func reqBody(tag int) string {
+	return fmt.Sprintf("request-body-of-operation-%d-%s", tag, strings.Repeat("y", tag%5))
+}
+
+// mkReqBody is a POST whose body the logger has to read (post data logging is on by default).
+func mkReqBody(tag int) *http.Request {
+	b := reqBody(tag)
+	req, _ := http.NewRequest("POST", fmt.Sprintf("http://example.com/r%d", tag), io.NopCloser(strings.NewReader(b)))
+	req.ContentLength = int64(len(b))
+	req.Header.Set("Content-Type", "text/plain")
+	return req
+}
+
+var errBody = errors.New("c17: body read failed")
+
+// failBody yields n bytes and then fails.
+type failBody struct {
+	n int
+}
+
+func (f *failBody) Read(p []byte) (int, error) {
+	if f.n <= 0 || len(p) == 0 {
+		return 0, errBody
+	}
+	f.n--
+	p[0] = 'z'
+	return 1, nil
+}
+func (f *failBody) Close() error { return nil }
+
+// mkReqFail is a POST whose body fails after tag%3 bytes.
+func mkReqFail(tag int) *http.Request {
+	req, _ := http.NewRequest("POST", fmt.Sprintf("http://example.com/r%d", tag), &failBody{n: tag % 3})
+	req.ContentLength = 10
+	req.Header.Set("Content-Type", "text/plain")
+	return req
+}
+
 // resBody is the body of the response recorded with the given tag (distinct per tag, different lengths).
 func resBody(tag int) string {
 	return fmt.Sprintf("response-body-of-operation-%d-%s", tag, strings.Repeat("x", tag%7))
@@ -141,7 +248,16 @@ func mkRes(tag int) *http.Response {
 		Body: io.NopCloser(strings.NewReader(b)), ContentLength: int64(len(b))}
 }
 
+// mkResFail is a response whose body fails after tag%3 bytes.
+func mkResFail(tag int) *http.Response {
+	return &http.Response{StatusCode: 200 + tag, Proto: "HTTP/1.1", ProtoMajor: 1, ProtoMinor: 1, Header: http.Header{"Content-Type": {"text/plain"}},
+		Body: &failBody{n: tag % 3}, ContentLength: 10}
+}
+
 func renderHAR(h *har.HAR) string {
+	if h == nil || h.Log == nil {
+		return "<no log>"
+	}
 	var es []mentry
 	for _, e := range h.Log.Entries {
 		if e == nil {
@@ -151,6 +267,10 @@ func renderHAR(h *har.HAR) string {
 		me := mentry{id: e.ID, reqTag: -1}
 		if e.Request != nil {
 			fmt.Sscanf(e.Request.URL, "http://example.com/r%d", &me.reqTag)
+			// the logged post data is the body recorded with this request
+			if e.Request.PostData != nil && e.Request.PostData.Text != reqBody(me.reqTag) {
+				me.id += "!postdata"
+			}
 		}
 		if e.Response != nil {
 			me.respTag = e.Response.Status - 200
@@ -164,30 +284,136 @@ func renderHAR(h *har.HAR) string {
 	return render(es)
 }
 
+// bodies makes Req operations upload a body (families errs and ring): the logger then reads a body on the
+// successful path too.
+type implOpts struct{ bodies bool }
+
 func applyImpl(l *har.Logger, o op, tag int) string {
+	r, _ := applyImplH(l, o, tag, implOpts{})
+	return r
+}
+
+// safeApply is applyImplH for the single-threaded families: a panic inside the logger becomes the result of the
+// operation that caused it (in the concurrent part the scheduler attributes panics itself).
+func safeApply(l *har.Logger, o op, tag int, opts implOpts) (res string, h *har.HAR) {
+	defer func() {
+		if r := recover(); r != nil {
+			res, h = fmt.Sprintf("panic: %v", r), nil
+		}
+	}()
+	return applyImplH(l, o, tag, opts)
+}
+
+// symptom names the kind of disagreement for the signature.
+func symptom(got string) string {
+	if strings.HasPrefix(got, "panic: ") {
+		return "panic"
+	}
+	return "mismatch"
+}
+
+// serve makes one call to a handler; spelling = "<METHOD> <query>".
+func serve(h http.Handler, spelling string) *httptest.ResponseRecorder {
+	f := strings.Fields(spelling)
+	target := "http://martian.proxy/logs"
+	if len(f) > 1 {
+		target += f[1]
+	}
+	req, err := http.NewRequest(f[0], target, nil)
+	if err != nil {
+		panic(err)
+	}
+	rw := httptest.NewRecorder()
+	h.ServeHTTP(rw, req)
+	return rw
+}
+
+// harOfJSON reads what a handler wrote the way its client does.
+func harOfJSON(rw *httptest.ResponseRecorder) string {
+	if rw.Code != 200 {
+		return fmt.Sprintf("status:%d", rw.Code)
+	}
+	if ct := rw.Header().Get("Content-Type"); !strings.HasPrefix(ct, "application/json") {
+		return "content-type:" + ct
+	}
+	var h har.HAR
+	if err := json.Unmarshal(rw.Body.Bytes(), &h); err != nil {
+		return "badjson:" + err.Error()
+	}
+	return renderHAR(&h)
+}
+
+// applyImplH performs the operation on the logger; for Export and ExportAndReset it also returns the object
+// that was handed out (so that it can be looked at again later).
+func applyImplH(l *har.Logger, o op, tag int, opts implOpts) (string, *har.HAR) {
 	switch o.Kind {
-	case opReq:
-		if err := l.RecordRequest(o.ID, mkReq(tag)); err != nil {
-			if strings.Contains(err.Error(), "Duplicate") {
-				return "dup"
+	case opReq, opReqFail:
+		req := mkReq(tag)
+		if o.Kind == opReqFail {
+			req = mkReqFail(tag)
+		} else if opts.bodies {
+			req = mkReqBody(tag)
+		}
+		if err := l.RecordRequest(o.ID, req); err != nil {
+			if o.Kind == opReqFail {
+				return "err", nil
 			}
-			return "err:" + err.Error()
+			if strings.Contains(err.Error(), "Duplicate") {
+				return "dup", nil
+			}
+			return "err:" + err.Error(), nil
 		}
-		return "ok"
-	case opResp:
-		if err := l.RecordResponse(o.ID, mkRes(tag)); err != nil {
-			return "err:" + err.Error()
+		return "ok", nil
+	case opResp, opRespFail:
+		res := mkRes(tag)
+		if o.Kind == opRespFail {
+			res = mkResFail(tag)
 		}
-		return "ok"
+		if err := l.RecordResponse(o.ID, res); err != nil {
+			if o.Kind == opRespFail {
+				return "err", nil
+			}
+			return "err:" + err.Error(), nil
+		}
+		return "ok", nil
 	case opExport:
-		return renderHAR(l.Export())
+		h := l.Export()
+		return renderHAR(h), h
 	case opExportReset:
-		return renderHAR(l.ExportAndReset())
+		h := l.ExportAndReset()
+		return renderHAR(h), h
+	case opExportH:
+		return harOfJSON(serve(har.NewExportHandler(l), o.ID)), nil
+	case opExportResetH:
+		return harOfJSON(serve(har.NewResetHandler(l), o.ID)), nil
+	case opResetH:
+		rw := serve(har.NewResetHandler(l), o.ID)
+		if rw.Code != http.StatusNoContent || rw.Body.Len() != 0 {
+			return fmt.Sprintf("status:%d body:%q", rw.Code, rw.Body.String()), nil
+		}
+		return "ok", nil
+	case opRefusedH:
+		f := strings.Fields(o.ID)
+		var h http.Handler = har.NewExportHandler(l)
+		if f[0] == "reset" {
+			h = har.NewResetHandler(l)
+		}
+		rw := serve(h, strings.Join(f[1:len(f)-1], " "))
+		return fmt.Sprintf("status:%d log:%s", rw.Code, renderHAR(l.Export())), nil
 	default:
 		l.Reset()
-		return "ok"
+		return "ok", nil
 	}
 }
+
+// nolog keeps martian's own logging (a global lock, stderr) out of the scenarios.
+type nolog struct{}
+
+func (nolog) Infof(string, ...interface{})  {}
+func (nolog) Debugf(string, ...interface{}) {}
+func (nolog) Errorf(string, ...interface{}) {}
+
+func init() { mlog.SetLogger(nolog{}) }
 
 // ---- part 1: sequential histories ----
 
@@ -206,8 +432,8 @@ func seqPart(out *shardOut, maxLen int, shard, nshards int) {
 	// enumerate sequences of exactly maxLen ops: every shorter sequence is a prefix and is checked step by step;
 	// sharding is on the first two operations.
 	seq := make([]int, maxLen)
-	var rec func(i int, l *har.Logger, m *model, hist []string) // unused
-	_ = rec
+	var snaps []snap
+	var snapChecks int64
 	total := 1
 	for i := 0; i < maxLen; i++ {
 		total *= k
@@ -232,17 +458,21 @@ func seqPart(out *shardOut, maxLen int, shard, nshards int) {
 			m := &model{}
 			bad := false
 			exported := map[int]int{}
+			snaps = snaps[:0]
 			for i := 0; i < maxLen && !bad; i++ {
 				o := alpha[seq[i]]
 				tag := i + 1
 				want := m.apply(o, tag)
-				got := applyImpl(l, o, tag)
+				got, handed := safeApply(l, o, tag, implOpts{})
+				if handed != nil {
+					snaps = append(snaps, snap{i, o, handed, got})
+				}
 				if want != got {
 					var hist []string
 					for j := 0; j <= i; j++ {
 						hist = append(hist, alpha[seq[j]].String())
 					}
-					sig := fmt.Sprintf("seq:%s:mismatch", kindName(o.Kind))
+					sig := fmt.Sprintf("seq:%s:%s", kindName(o.Kind), symptom(got))
 					out.Violations = append(out.Violations, lib.Violation{Sig: sig,
 						Desc:   fmt.Sprintf("history %v: step %d %s returned %s, model says %s", hist, i+1, o, got, want),
 						Replay: map[string]interface{}{"part": "seq", "history": hist}})
@@ -259,6 +489,20 @@ func seqPart(out *shardOut, maxLen int, shard, nshards int) {
 					}
 				}
 			}
+			// what an export handed out stays what it was, whatever is done with the log afterwards
+			for _, sn := range snaps {
+				if now := renderHAR(sn.h); now != sn.at && !bad {
+					var hist []string
+					for j := 0; j < maxLen; j++ {
+						hist = append(hist, alpha[seq[j]].String())
+					}
+					out.Violations = append(out.Violations, lib.Violation{Sig: fmt.Sprintf("seq:%s:snapshot_changed", kindName(sn.o.Kind)),
+						Desc:   fmt.Sprintf("history %v: what step %d %s returned was %s and reads %s after the rest of the history", hist, sn.step+1, sn.o, sn.at, now),
+						Replay: map[string]interface{}{"part": "seq", "history": hist}})
+					bad = true
+				}
+			}
+			snapChecks += int64(len(snaps))
 			n++
 			if len(m.entries) > 0 {
 				nontrivial++
@@ -284,6 +528,15 @@ func seqPart(out *shardOut, maxLen int, shard, nshards int) {
 	out.Counters["seq_steps"] += n * int64(maxLen)
 	out.Counters["seq_nontrivial_final"] += nontrivial
 	out.Counters["seq_distinct_final_states"] += int64(len(states))
+	out.Counters["snapshots_rechecked"] += snapChecks
+}
+
+// snap is something an Export or ExportAndReset handed out, with what it said at that moment.
+type snap struct {
+	step int
+	o    op
+	h    *har.HAR
+	at   string
 }
 
 // bulkPart: long logs. A prefix of n completed exchanges (distinct ids) with one request left pending - recorded
@@ -330,7 +583,7 @@ func bulkPart(out *shardOut, sizes []int, sufLen int, shard, nshards int) {
 				for i, o := range hist {
 					tag := i + 1
 					want := m.apply(o, tag)
-					got := applyImpl(l, o, tag)
+					got, _ := safeApply(l, o, tag, implOpts{})
 					steps++
 					if want != got {
 						var hs []string
@@ -341,7 +594,7 @@ func bulkPart(out *shardOut, sizes []int, sufLen int, shard, nshards int) {
 						if i < len(prefix) {
 							where = "prefix"
 						}
-						out.Violations = append(out.Violations, lib.Violation{Sig: fmt.Sprintf("bulk:%s:mismatch", kindName(o.Kind)),
+						out.Violations = append(out.Violations, lib.Violation{Sig: fmt.Sprintf("bulk:%s:%s", kindName(o.Kind), symptom(got)),
 							Desc:   fmt.Sprintf("log of %d completed exchanges + pending request (recorded last=%v), then %v: step %d (%s, in the %s) returned %.200s, model says %.200s", size, pendLast, hs, i+1, o, where, got, want),
 							Replay: map[string]interface{}{"part": "bulk", "size": size, "pend_last": pendLast, "suffix": hs}})
 						break
@@ -374,7 +627,8 @@ func parseTags(s string) []int {
 }
 
 func kindName(k int) string {
-	return [...]string{"record_request", "record_response", "export", "export_and_reset", "reset"}[k]
+	return [...]string{"record_request", "record_response", "export", "export_and_reset", "reset", "record_request_failing_body",
+		"record_response_failing_body", "export_handler", "reset_handler_return", "reset_handler", "handler_refusal"}[k]
 }
 
 // ---- part 2: concurrent executions ----
@@ -424,7 +678,7 @@ func linearizable(base *model, evs []*event) bool {
 				continue
 			}
 			m2 := m.clone()
-			if m2.apply(evs[i].Op, evs[i].Tag) != evs[i].Result {
+			if !match(m2.apply(evs[i].Op, evs[i].Tag), evs[i].Result) {
 				continue
 			}
 			used[i] = true
@@ -497,24 +751,38 @@ func concPart(out *shardOut, scen []scenario, shard, nshards int, deadline time.
 		}
 		// unlocks are scheduling points too where that is affordable (code that runs after a critical section, such
 		// as the caller reading what Export handed out, then interleaves with the other threads): in quick for the
-		// scenarios with two operations, in thorough for all
+		// scenarios with two operations and for those that go through the handlers, in thorough for all scenarios
+		// of up to four operations
 		nops := 0
+		class := "conc"
 		for _, prog := range sc.Threads {
 			nops += len(prog)
+			for _, o := range prog {
+				if o.Kind >= opExportH {
+					// a handler serialises what it was handed after the logger's critical section: always with
+					// unlock points
+					class = "concfront"
+				}
+			}
 		}
-		up := lib.Tier() == "thorough" || nops <= 2
+		// (thorough: up to four operations; with unlock points one scenario of three threads and five operations
+		// has 2*10^5 interleavings and the 6250 of them could never be completed - they keep the lock points only)
+		up := (lib.Tier() == "thorough" && nops <= 4) || nops <= 2 || class == "concfront"
 		if up {
 			out.Counters["conc_scenarios_with_unlock_points"]++
 		}
+		if class == "concfront" {
+			out.Counters["conc_scenarios_through_handlers"]++
+		}
 		st := vrt.Explore(vrt.ExploreConfig{Bound: -1, Deadline: deadline, Config: vrt.Config{UnlockPoints: up}}, body, func(prefix []int, r *vrt.Result) bool {
 			if r.Outcome != "ok" {
-				out.Violations = append(out.Violations, lib.Violation{Sig: "conc:" + r.Outcome,
+				out.Violations = append(out.Violations, lib.Violation{Sig: class + ":" + r.Outcome,
 					Desc:   fmt.Sprintf("scenario %s schedule %v: %s %s", sc, r.ChoiceSeq(), r.Outcome, r.Panic),
 					Replay: map[string]interface{}{"part": "conc", "scenario": sc, "schedule": r.ChoiceSeq()}})
-				return true
+				return len(out.Violations) < 50
 			}
 			if !linearizable(base, evs) {
-				out.Violations = append(out.Violations, lib.Violation{Sig: "conc:not_linearizable",
+				out.Violations = append(out.Violations, lib.Violation{Sig: class + ":not_linearizable",
 					Desc:   fmt.Sprintf("scenario %s schedule %v: history %v is not linearizable w.r.t. the list model", sc, r.ChoiceSeq(), r.Log),
 					Replay: map[string]interface{}{"part": "conc", "scenario": sc, "schedule": r.ChoiceSeq(), "log": r.Log}})
 			}
@@ -598,23 +866,49 @@ func main() {
 		maxLen = 7
 	}
 	scen := scenarios(tier)
+	// the new families: quick / thorough bounds
+	frontLen, errsLen, frontOps := 5, 5, 3
+	rings := [][2]int{{1, 8}, {2, 5}, {3, 2}} // (rounds, most new requests per round)
+	if tier == "thorough" {
+		frontLen, errsLen, frontOps = 6, 6, 4
+		rings = [][2]int{{1, 12}, {2, 6}, {3, 3}, {4, 2}}
+	}
+	scen = append(scen, frontScenarios(frontOps)...)
 	if os.Getenv("VERIF_REPLAY") != "" {
 		replay(os.Getenv("VERIF_REPLAY"))
 		return
 	}
 	if i, n := lib.ShardEnv(); n > 0 {
 		out := &shardOut{Counters: map[string]int64{}}
+		t0 := time.Now()
+		lap := func(what string) {
+			if os.Getenv("C17_TIMING") != "" && i == 0 {
+				fmt.Fprintf(os.Stderr, "shard 0: %-8s %6d ms\n", what, time.Since(t0).Milliseconds())
+			}
+			t0 = time.Now()
+		}
 		seqPart(out, maxLen, i, n)
+		lap("seq")
 		if tier == "thorough" {
 			bulkPart(out, []int{1, 8, 63, 64, 65, 127, 128, 129, 255, 256, 257, 1000}, 3, i, n)
 		} else {
 			bulkPart(out, []int{1, 63, 64, 65, 200}, 2, i, n)
 		}
+		lap("bulk")
+		allHistories(out, "front", frontAlphabet(), frontLen, implOpts{}, i, n)
+		lap("front")
+		allHistories(out, "errs", errsAlphabet(), errsLen, implOpts{bodies: true}, i, n)
+		lap("errs")
+		for _, rg := range rings {
+			ringPart(out, rg[0], rg[1], i, n)
+		}
+		lap("ring")
 		dl := time.Now().Add(10 * time.Minute)
 		if tier == "thorough" {
 			dl = time.Now().Add(40 * time.Minute)
 		}
 		concPart(out, scen, i, n, dl)
+		lap("conc")
 		b, _ := json.Marshal(out)
 		os.WriteFile(os.Getenv("VERIF_SHARD_OUT"), b, 0o644)
 		return
@@ -645,16 +939,21 @@ func main() {
 			rep.Incomplete = so.Incomplete
 		}
 	}
+	added := rep.Counter("front_histories") + rep.Counter("errs_histories") + rep.Counter("ring_histories")
 	rep.Coverage["states"] = rep.Counter("seq_distinct_final_states") + rep.Counter("conc_distinct_histories")
-	rep.Coverage["transitions"] = rep.Counter("seq_steps") + rep.Counter("conc_points")
-	rep.Coverage["traces_validated_against_impl"] = rep.Counter("seq_histories") + rep.Counter("conc_executions")
+	rep.Coverage["transitions"] = rep.Counter("seq_steps") + rep.Counter("conc_points") + rep.Counter("bulk_steps") + rep.Counter("front_steps") + rep.Counter("errs_steps") + rep.Counter("ring_steps")
+	rep.Coverage["traces_validated_against_impl"] = rep.Counter("seq_histories") + rep.Counter("conc_executions") + rep.Counter("bulk_histories") + added
+	rep.Coverage["evaluations"] = rep.Counter("seq_steps") + rep.Counter("bulk_steps") + rep.Counter("front_steps") + rep.Counter("errs_steps") + rep.Counter("ring_steps") + rep.Counter("snapshots_rechecked") + rep.Counter("conc_executions")
+	rep.Coverage["distinct_nontrivial"] = rep.Counter("seq_nontrivial_final") + rep.Counter("front_nontrivial") + rep.Counter("errs_nontrivial") + rep.Counter("ring_nontrivial") + rep.Counter("conc_scenarios_with_multiple_outcomes")
+	rep.Coverage["rule"] = "histories: every sequence of the family's alphabet up to its length bound (seq, front, errs), every (size, position of the pending request, suffix) (bulk), every (new requests, completed subset) per round (ring) - enumerated without repetition, nothing sampled; a seq history is non-trivial when the model's log is not empty at its end, a front/errs/ring history when one of its exports or export-and-resets lists at least one entry; concurrent: every scenario of scenarios()+frontScenarios() x every interleaving of its scheduling points, a scenario is non-trivial when its interleavings produce more than one distinct call/return history; evaluations = steps compared with the model + exported objects read again + executions judged for linearizability"
 	rep.Coverage["executions"] = rep.Counter("conc_executions")
 	rep.Coverage["exhaustive"] = rep.Incomplete == ""
-	rep.Coverage["bounds"] = fmt.Sprintf("sequential: all %d^%d operation sequences (and their prefixes) over ids {a,b,c}; long logs: 1..200 (1000 thorough) completed exchanges plus a pending request followed by every suffix of 2 (3) operations; concurrent: %d scenarios of 2-3 threads x 1-2 ops on ids {a,b} from an empty and a primed log, all interleavings (unbounded)", 9, maxLen, len(scen))
+	rep.Coverage["bounds"] = fmt.Sprintf("sequential: all %d^%d operation sequences (and their prefixes) over ids {a,b,c}; long logs: 1..200 (1000 thorough) completed exchanges plus a pending request followed by every suffix of 2 (3) operations; concurrent: %d scenarios of 2-3 threads x 1-2 ops on ids {a,b} from an empty and a primed log, all interleavings (unbounded), of which %d read and clear the log through the HTTP handlers (2 threads, <= %d operations, unlock points); front: all %d^%d sequences with Export / ExportAndReset / Reset made through the handlers in 2 spellings each plus 3 refused calls, ids {a,b}; errs: all %d^%d sequences with failing request and response bodies, ids {a,b}; ring: [rounds, most new requests per round] in %v, a round = (new requests, every subset of the pending ones completed, Export, ExportAndReset, Export), then drain and id reuse; every object handed out by Export / ExportAndReset is read again at the end of its history", 9, maxLen, len(scen), rep.Counter("conc_scenarios_through_handlers"), frontOps, len(frontAlphabet()), frontLen, len(errsAlphabet()), errsLen, rings)
 	rep.Coverage["explanation"] = "every trace is an execution of the real har.Logger (rewritten only so that its mutex is a scheduling point); states = distinct final model states + distinct concurrent histories"
 	rep.Assumptions = []string{
 		"scheduling points are the logger lock operations; unsynchronised accesses are the business of the auxiliary free-running -race pass (sampling)",
-		"ids limited to {a,b,c}; one request/response shape (bodiless GET / 2xx)",
+		"ids limited to {a,b,c} (x0..x9 in the ring family); request shapes: bodiless GET, POST with a text body, POST whose body fails; responses: 2xx with a text body, or a body that fails",
+		"the handlers are called with a ResponseRecorder (no network); martian's own logging is switched off (log.SetLogger) so that its global lock adds no scheduling points",
 	}
 	// auxiliary race pass: the same kind of thread bodies free-running on the unrewritten tree under -race
 	raceIters := "30"
@@ -676,6 +975,7 @@ func replay(path string) {
 			Replay struct {
 				Part     string
 				History  []string
+				Bodies   bool
 				Scenario scenario
 				Schedule []int
 			}
@@ -684,7 +984,22 @@ func replay(path string) {
 	json.Unmarshal(b, &rp)
 	r := rp.First.Replay
 	bad := false
-	if r.Part == "seq" {
+	if r.Part == "front" || r.Part == "errs" || r.Part == "ring" {
+		var hist []op
+		for _, name := range r.History {
+			o, ok := parseOp(name)
+			if !ok {
+				fmt.Println("cannot parse operation", name)
+				os.Exit(2)
+			}
+			hist = append(hist, o)
+		}
+		var steps int64
+		if v := runHistory(r.Part, hist, implOpts{bodies: r.Bodies}, &steps); v != nil {
+			fmt.Println(v.Sig, v.Desc)
+			bad = true
+		}
+	} else if r.Part == "seq" {
 		// re-run the recorded operation history on a fresh logger against the model
 		l := har.NewLogger()
 		m := &model{}
@@ -701,6 +1016,18 @@ func replay(path string) {
 			if want != got {
 				bad = true
 			}
+		}
+		// and all clauses (snapshots read again at the end) on the same history
+		var hist []op
+		for _, name := range r.History {
+			if o, ok := parseOp(name); ok {
+				hist = append(hist, o)
+			}
+		}
+		var steps int64
+		if v := runHistory("seq", hist, implOpts{}, &steps); v != nil {
+			fmt.Println(v.Sig, v.Desc)
+			bad = true
 		}
 	} else {
 		out := &shardOut{Counters: map[string]int64{}}
